@@ -401,6 +401,10 @@ package router
 //@   requires [C18:no-nil-closer] r != nil && closersOK(r)
 //@   modifies *
 
+//@ spec func ruleAsConfigured(r *router, ru *rule, reverse bool, domain string, reject uint16, forward string) bool = ru != nil && ru.reject == reject
+//@        && (len(domain) > 0 ? ru.matcher == r.domainSets[domain] && ru.reverse == reverse : ru.matcher == nil && !ru.reverse)
+//@        && (len(forward) > 0 ? ru.upstream == r.upstreams[forward] : ru.upstream == nil)
+
 // run: start-up keeps every configured rule, in order, as configured (C10); on a start-up error nothing is
 // returned and what was started is closed without calling a nil closer (C18).
 //@ func run(ctx context.Context, cfg *Config) (rr *router, err error)
@@ -408,6 +412,7 @@ package router
 //@   requires cfg != nil && ctx != nil
 //@   modifies *
 //@   ensures [C10:every-rule-kept-in-order] err == nil ==> rr != nil && len(rr.rules) == len(cfg.Rules)
+//@             && forall(k, 0, len(cfg.Rules), ruleAsConfigured(rr, rr.rules[k], cfg.Rules[k].Reverse, cfg.Rules[k].Domain, cfg.Rules[k].Reject, cfg.Rules[k].Forward))
 //@   ensures [C18:startup-error-returns-no-router] err != nil ==> rr == nil
 //@   loop 1:
 //@     modifies obj(r.upstreams)
@@ -415,6 +420,7 @@ package router
 //@     modifies obj(r.domainSets), pkgheaps(domain_matcher)
 //@   loop 3:
 //@     invariant len(r.rules) == rangeindex_3 + 1
+//@     invariant forall(k, 0, rangeindex_3 + 1, ruleAsConfigured(r, r.rules[k], cfg.Rules[k].Reverse, cfg.Rules[k].Domain, cfg.Rules[k].Reject, cfg.Rules[k].Forward))
 //@   loop 4:
 //@     modifies r.serverClosers, obj(r.serverClosers)
 //@     invariant closersOK(r) && (loopFresh(r.serverClosers) || sameObj(r.serverClosers, loopOld(r.serverClosers)))
